@@ -144,6 +144,7 @@ type Cfg struct {
 	SkewUs    int64   `json:"skew_us,omitempty"` // every shot ends this many microseconds before its nominal duration
 	Fault2    Fault   `json:"fault2,omitempty"`  // a second component failing in the same run
 	WarmMs    int64   `json:"warm_ms,omitempty"` // the warm-up takes this long and does not look at the context
+	OtherWarmMs int64 `json:"other_warm_ms,omitempty"` // pools after the first warm their guns up for this long (they start shooting later)
 	Pools     int     `json:"pools"`
 	OtherLong bool    `json:"other_long,omitempty"`
 	CauseDeadline bool `json:"cause_deadline,omitempty"` // the injected failure is the component's own timeout (wraps context.DeadlineExceeded) // pools other than the first run a long paced profile with unbounded ammo
@@ -154,7 +155,7 @@ type Cfg struct {
 
 func (c Cfg) Name() string {
 	return fmt.Sprintf("%s|startup=%s|rps=%s|perinst=%v|ammo=%d|discard=%v|shot=%v|fault=%s@%d|cancel=%v%v|pools=%d|closable=%v|warm=%v|adv=%v|otherlong=%v",
-		c.Prop, c.Startup, c.RPS, c.PerInst, c.Ammo, c.Discard, c.ShotMs, c.Fault.Kind, c.Fault.Pos, c.Cancel, c.CancelMs, c.Pools, c.Closable, c.WarmUp, c.Advance, c.OtherLong) + map[bool]string{true: "|cause=deadline", false: ""}[c.CauseDeadline] + map[bool]string{true: fmt.Sprintf("|warmms=%d", c.WarmMs), false: ""}[c.WarmMs > 0] + map[bool]string{true: fmt.Sprintf("|fault2=%s@%d", c.Fault2.Kind, c.Fault2.Pos), false: ""}[c.Fault2.Kind != ""] + map[bool]string{true: fmt.Sprintf("|skew=%dus", c.SkewUs), false: ""}[c.SkewUs > 0] + map[bool]string{true: fmt.Sprintf("|provbuf=%d", c.ProvBuf), false: ""}[c.ProvBuf > 0]
+		c.Prop, c.Startup, c.RPS, c.PerInst, c.Ammo, c.Discard, c.ShotMs, c.Fault.Kind, c.Fault.Pos, c.Cancel, c.CancelMs, c.Pools, c.Closable, c.WarmUp, c.Advance, c.OtherLong) + map[bool]string{true: "|cause=deadline", false: ""}[c.CauseDeadline] + map[bool]string{true: fmt.Sprintf("|warmms=%d", c.WarmMs), false: ""}[c.WarmMs > 0] + map[bool]string{true: fmt.Sprintf("|fault2=%s@%d", c.Fault2.Kind, c.Fault2.Pos), false: ""}[c.Fault2.Kind != ""] + map[bool]string{true: fmt.Sprintf("|skew=%dus", c.SkewUs), false: ""}[c.SkewUs > 0] + map[bool]string{true: fmt.Sprintf("|provbuf=%d", c.ProvBuf), false: ""}[c.ProvBuf > 0] + map[bool]string{true: fmt.Sprintf("|otherwarm=%dms", c.OtherWarmMs), false: ""}[c.OtherWarmMs > 0]
 }
 
 type poolState struct {
@@ -249,6 +250,9 @@ func (r *run) scenario(x *vs.X) func(end, msg string) error {
 		}
 		r.pools = append(r.pools, w)
 		rps := c.RPS
+		if pi > 0 && c.OtherWarmMs > 0 {
+			w.WarmUp, w.WarmDur = true, ms(c.OtherWarmMs)
+		}
 		if pi > 0 && c.OtherLong {
 			rps = cst(1, 600000)
 			w.Items = -1
@@ -412,46 +416,49 @@ func (r *run) checkC03(end, msg string) error {
 	if r.runErr != nil {
 		return fmt.Errorf("RUN-ERROR: run of a healthy pool returned %v", r.runErr)
 	}
-	w := r.pools[0]
-	if len(w.BadRelease) > 0 {
-		return fmt.Errorf("AMMO-LIFECYCLE: %s", w.BadRelease[0])
-	}
 	toks, _ := r.cfg.RPS.tokens()
 	T := len(toks)
 	started := int(r.metrics.InstanceStart.Get())
-	total := T
-	if r.cfg.PerInst {
-		total = T * started
-	}
-	want := total
-	if r.cfg.Ammo >= 0 && r.cfg.Ammo < want {
-		want = r.cfg.Ammo
-	}
-	fired, disc := len(w.Shots), r.discarded(w)
-	if fired+disc != want {
-		return fmt.Errorf("ACCOUNTING: fired %d + discarded %d != min(tokens %d, ammo %d) = %d", fired, disc, total, r.cfg.Ammo, want)
-	}
-	if w.AcquireN != w.ReleaseN {
-		return fmt.Errorf("AMMO-LIFECYCLE: acquired %d items, released %d", w.AcquireN, w.ReleaseN)
-	}
-	for it, st := range w.Acquired {
-		if st != 2 {
-			return fmt.Errorf("AMMO-LIFECYCLE: item %d ends in state %d (not released exactly once)", it, st)
+	firedAll := 0
+	for pi, w := range r.pools {
+		if len(w.BadRelease) > 0 {
+			return fmt.Errorf("AMMO-LIFECYCLE: pool %d: %s", pi, w.BadRelease[0])
+		}
+		total := T
+		if r.cfg.PerInst {
+			total = T * started // (cells with several pools use shared profiles)
+		}
+		want := total
+		if r.cfg.Ammo >= 0 && r.cfg.Ammo < want {
+			want = r.cfg.Ammo
+		}
+		fired, disc := len(w.Shots), r.discarded(w)
+		firedAll += fired
+		if fired+disc != want {
+			return fmt.Errorf("ACCOUNTING: pool %d: fired %d + discarded %d != min(tokens %d, ammo %d) = %d", pi, fired, disc, total, r.cfg.Ammo, want)
+		}
+		if w.AcquireN != w.ReleaseN {
+			return fmt.Errorf("AMMO-LIFECYCLE: pool %d: acquired %d items, released %d", pi, w.AcquireN, w.ReleaseN)
+		}
+		for it, st := range w.Acquired {
+			if st != 2 {
+				return fmt.Errorf("AMMO-LIFECYCLE: pool %d: item %d ends in state %d (not released exactly once)", pi, it, st)
+			}
+		}
+		unfired := w.AcquireN - fired - disc
+		maxUnfired := 0
+		if !r.cfg.PerInst {
+			maxUnfired = started - 1 // (several pools: all started instances, an upper bound of this pool's)
+			if maxUnfired < 0 {
+				maxUnfired = 0
+			}
+		}
+		if unfired > maxUnfired || unfired < 0 {
+			return fmt.Errorf("EXTRA-AMMO: pool %d: %d acquired items went unfired (allowed %d)", pi, unfired, maxUnfired)
 		}
 	}
-	unfired := w.AcquireN - fired - disc
-	maxUnfired := 0
-	if !r.cfg.PerInst {
-		maxUnfired = started - 1
-		if maxUnfired < 0 {
-			maxUnfired = 0
-		}
-	}
-	if unfired > maxUnfired || unfired < 0 {
-		return fmt.Errorf("EXTRA-AMMO: %d acquired items went unfired (allowed %d)", unfired, maxUnfired)
-	}
-	if int(r.metrics.Request.Get()) != fired || int(r.metrics.Response.Get()) != fired {
-		return fmt.Errorf("COUNTERS: request=%d response=%d fired=%d", r.metrics.Request.Get(), r.metrics.Response.Get(), fired)
+	if int(r.metrics.Request.Get()) != firedAll || int(r.metrics.Response.Get()) != firedAll {
+		return fmt.Errorf("COUNTERS: request=%d response=%d, requests fired by all pools=%d", r.metrics.Request.Get(), r.metrics.Response.Get(), firedAll)
 	}
 	if !r.waitRet {
 		return fmt.Errorf("TERMINATION: Engine.Wait did not return")
